@@ -28,6 +28,87 @@ type deferRec struct {
 type State struct {
 	h      Heap
 	defers []deferRec
+	facts  map[*Term]*Term // term -> constant it equals on every path into this state
+}
+
+func extendFacts(f map[*Term]*Term, b *B, c *Term, val bool) map[*Term]*Term {
+	if c.Op == "true" || c.Op == "false" {
+		return f
+	}
+	n := make(map[*Term]*Term, len(f)+2)
+	for k, v := range f {
+		n[k] = v
+	}
+	var add func(c *Term, val bool)
+	add = func(c *Term, val bool) {
+		switch {
+		case c.Op == "not":
+			add(c.Args[0], !val)
+			return
+		case c.Op == "and" && val:
+			add(c.Args[0], true)
+			add(c.Args[1], true)
+		case c.Op == "or" && !val:
+			add(c.Args[0], false)
+			add(c.Args[1], false)
+		}
+		n[c] = b.Bool(val)
+		if val && c.Op == "=" && isC(c.Args[1]) && !isC(c.Args[0]) {
+			n[c.Args[0]] = c.Args[1]
+		}
+	}
+	add(c, val)
+	return n
+}
+
+func meetFacts(a, c map[*Term]*Term) map[*Term]*Term {
+	if len(a) == 0 || len(c) == 0 {
+		return nil
+	}
+	n := map[*Term]*Term{}
+	for k, v := range a {
+		if c[k] == v {
+			n[k] = v
+		}
+	}
+	return n
+}
+
+// sel is Select refined by the facts of the current path: stores whose index
+// is known (by a path condition) to differ are skipped, and a cell whose value
+// is pinned by a path condition folds to that constant.
+func (x *Exec) sel(a, i *Term) *Term {
+	b := x.b
+	f := x.curFacts
+	if len(f) == 0 {
+		return b.Select(a, i)
+	}
+	for {
+		t := b.Select(a, i)
+		if t.Op != "select" {
+			if c, ok := f[t]; ok {
+				return c
+			}
+			return t
+		}
+		a = t.Args[0]
+		if c, ok := f[t]; ok {
+			return c
+		}
+		if a.Op == "store" {
+			e := b.Eq(i, a.Args[1])
+			if c, ok := f[e]; ok {
+				if c.Op == "false" {
+					a = a.Args[0]
+					continue
+				}
+				if c.Op == "true" {
+					return a.Args[2]
+				}
+			}
+		}
+		return t
+	}
 }
 
 type Exec struct {
@@ -56,6 +137,7 @@ type Exec struct {
 	// spawned closures (go statements)
 	spawned []*FuncV
 
+	curFacts  map[*Term]*Term
 	gobj      *Object
 	globals   map[*ssa.Global]*Object
 	initDone  map[*ssa.Package]bool
@@ -206,7 +288,7 @@ func (x *Exec) mergeStates(edges []edge) (*Term, *State) {
 		if len(e.st.defers) != len(st.defers) {
 			unsupported("join of paths with different deferred calls")
 		}
-		st = &State{h: nh, defers: st.defers}
+		st = &State{h: nh, defers: st.defers, facts: meetFacts(st.facts, e.st.facts)}
 		pc = b.Or(pc, e.cond)
 	}
 	return pc, st
@@ -404,6 +486,13 @@ func (x *Exec) run(fn *ssa.Function, args []Value, st *State, pcIn *Term) (Value
 			}
 			unsupported("undefined SSA value %s in %s", v.Name(), fn.Name())
 		}
+		if len(x.curFacts) != 0 {
+			if t, ok := r.(*Term); ok {
+				if c, ok := x.curFacts[t]; ok {
+					return c
+				}
+			}
+		}
 		return r
 	}
 	for _, blk := range fi.order {
@@ -429,8 +518,9 @@ func (x *Exec) run(fn *ssa.Function, args []Value, st *State, pcIn *Term) (Value
 				continue
 			}
 		}
-		cur = &State{h: cur.h.clone(), defers: cur.defers}
+		cur = &State{h: cur.h.clone(), defers: cur.defers, facts: cur.facts}
 		st = cur // for globalPtr lazily materialising globals
+		x.curFacts = cur.facts
 		if loops != nil && fi.back[blk] != nil {
 			pc = loops.enterHeader(blk, pc, cur, in[blk], vals, get)
 		}
@@ -480,7 +570,7 @@ func (x *Exec) run(fn *ssa.Function, args []Value, st *State, pcIn *Term) (Value
 					x.oblige("index", pc, b.Cmp("bvult", idx, b.Const(64, uint64(at.Len()))))
 					ai := x.adaptIdx(a, idx)
 					x.noteSelect(a, ai)
-					vals[i] = b.Select(a, ai)
+					vals[i] = x.sel(a, ai)
 				case *StrV:
 					idx := x.toIdx64(get(i.Index).(*Term), i.Index.Type())
 					x.oblige("index", pc, b.Cmp("bvult", idx, a.Len))
@@ -585,6 +675,7 @@ func (x *Exec) run(fn *ssa.Function, args []Value, st *State, pcIn *Term) (Value
 					args = append(args, get(a))
 				}
 				vals[i] = x.doCall(&i.Call, get(i.Call.Value), args, cur, pc, fn)
+				x.curFacts = cur.facts
 			case *ssa.Panic:
 				x.oblige("panic", pc, b.False())
 				// path ends here
@@ -603,8 +694,10 @@ func (x *Exec) run(fn *ssa.Function, args []Value, st *State, pcIn *Term) (Value
 					}
 					break
 				}
-				setEdge(blk, blk.Succs[0], 0, edge{b.And(pc, c), cur})
-				setEdge(blk, blk.Succs[1], 1, edge{b.And(pc, b.Not(c)), cur})
+				curT := &State{h: cur.h, defers: cur.defers, facts: extendFacts(cur.facts, b, c, true)}
+				curF := &State{h: cur.h, defers: cur.defers, facts: extendFacts(cur.facts, b, c, false)}
+				setEdge(blk, blk.Succs[0], 0, edge{b.And(pc, c), curT})
+				setEdge(blk, blk.Succs[1], 1, edge{b.And(pc, b.Not(c)), curF})
 			case *ssa.Jump:
 				if loops != nil && loops.edge(blk, 0, pc, cur) {
 					setEdge(blk, blk.Succs[0], 0, edge{b.False(), cur})
@@ -666,7 +759,7 @@ func (x *Exec) run(fn *ssa.Function, args []Value, st *State, pcIn *Term) (Value
 				nh[o] = v
 			}
 		}
-		rst = &State{h: nh}
+		rst = &State{h: nh, facts: meetFacts(rst.facts, e.st.facts)}
 		if rv != nil {
 			rv = x.iteV(e.cond, retVals[k], rv)
 		}
@@ -1052,9 +1145,9 @@ func (x *Exec) strByte(s *StrV, idx *Term, st *State) *Term {
 		for k := 0; k < len(s.S); k++ {
 			a = b.Store(a, b.Const(64, uint64(k)), b.Const(8, uint64(s.S[k])))
 		}
-		return b.Select(a, idx)
+		return x.sel(a, idx)
 	}
-	return b.Select(st.h[s.Obj].(*Term), idx)
+	return x.sel(st.h[s.Obj].(*Term), idx)
 }
 
 func (x *Exec) strEq(p, q *StrV, st *State) *Term {
